@@ -311,11 +311,66 @@ pub fn eval_exact(d: &Diag, scalar: &R) -> Result<Vec<R>, EvalError> {
     Ok(raw.entries.iter().map(|z| R::from_zw(z).mul(&f)).collect())
 }
 
+/// Magnitude bookkeeping for the float evaluator: the same contraction with every factor
+/// replaced by its absolute value gives, per entry, the sum of the magnitudes of all terms,
+/// i.e. the scale against which cancellation noise has to be measured.
+#[derive(Clone, Copy, Debug)]
+struct AbsF(f64);
+
+impl Num for AbsF {
+    fn zero() -> Self {
+        AbsF(0.0)
+    }
+    fn one() -> Self {
+        AbsF(1.0)
+    }
+    fn add(&self, o: &Self) -> Self {
+        AbsF(self.0 + o.0)
+    }
+    fn mul(&self, o: &Self) -> Self {
+        AbsF(self.0 * o.0)
+    }
+    fn neg(&self) -> Self {
+        *self
+    }
+    fn from_phase(_: i64, _: i64) -> Self {
+        AbsF(1.0)
+    }
+    fn is_zero(&self) -> bool {
+        self.0 == 0.0
+    }
+    fn conj(&self) -> Self {
+        *self
+    }
+}
+
+/// Entries whose magnitude is below this fraction of the sum of the magnitudes of their
+/// terms are pure cancellation noise of the f64 contraction and are reported as exact 0
+/// (otherwise a diagram that denotes 0 would be compared at the scale of its - possibly
+/// huge - stored scalar times 1e-16). A discrepancy below that level is beyond what the
+/// float pool can decide anyway; the exact pool has no such blind spot.
+pub const CANCELLATION_FLOOR: f64 = 1e-11;
+
 /// Floating-point tensor of a diagram times `scalar`.
 pub fn eval_float(d: &Diag, scalar: Cf) -> Result<Vec<Cf>, EvalError> {
     let raw = eval_raw::<Cf>(d)?;
+    let mag = eval_raw::<AbsF>(d)?;
     let f = scalar * std::f64::consts::SQRT_2.powi(-(raw.sqrt2_neg as i32));
-    Ok(raw.entries.iter().map(|z| z * f).collect())
+    Ok(raw
+        .entries
+        .iter()
+        .zip(mag.entries.iter())
+        .map(|(z, m)| if z.norm() <= CANCELLATION_FLOOR * m.0 { Cf::new(0.0, 0.0) } else { z * f })
+        .collect())
+}
+
+/// Tensor of a diagram whose phases are all multiples of pi/4, times a scalar that is only
+/// known in floating point: the diagram part is evaluated exactly (so an exact 0 stays 0
+/// and there is no cancellation noise), only the final multiplication is in f64.
+pub fn eval_exact_times_float(d: &Diag, scalar: Cf) -> Result<Vec<Cf>, EvalError> {
+    let raw = eval_raw::<Zw>(d)?;
+    let f = R::sqrt2_pow(-raw.sqrt2_neg);
+    Ok(raw.entries.iter().map(|z| R::from_zw(z).mul(&f).to_cf() * scalar).collect())
 }
 
 /// max |a_i - b_i| <= tol * max(1, max|a_i|, max|b_i|)
